@@ -109,7 +109,7 @@ def model_to_object(*, model: OpenJDModel) -> dict[str, Any]:
     """Given a model from this package, encode it as a dictionary such that it could
     be written to a JSON/YAML document."""
 
-    as_dict = model.dict()
+    as_dict = model.dict(by_alias=True)
 
     # Some of the values in the model can be type 'Decimal', which doesn't
     # encode into json/yaml without special handling. So, we convert those in to
